@@ -7,6 +7,7 @@ require (
 	github.com/golang/snappy v0.0.4
 	github.com/janelia-flyem/dvid v0.0.0
 	github.com/janelia-flyem/go v0.0.0-20180718195536-d388bdc31871
+	github.com/santhosh-tekuri/jsonschema/v5 v5.0.1
 	google.golang.org/protobuf v1.33.0
 )
 
@@ -63,7 +64,6 @@ require (
 	github.com/pkg/errors v0.9.1 // indirect
 	github.com/rcrowley/go-metrics v0.0.0-20201227073835-cf1acfcdf475 // indirect
 	github.com/rs/cors v1.8.2 // indirect
-	github.com/santhosh-tekuri/jsonschema/v5 v5.0.1 // indirect
 	github.com/twinj/uuid v1.0.0 // indirect
 	github.com/valyala/gorpc v0.0.0-20160519171614-908281bef774 // indirect
 	github.com/zenazn/goji v1.0.1 // indirect
